@@ -32,7 +32,7 @@ func init() {
 	register(ruleDef{ID: "R10.4", Prop: "C10", Tier: "quick", Floor: 5,
 		Title: "a voxel is relabelled only after its current label was examined, and the counts follow the relabelling: in the split functions of the labels package every store into the expanded voxel array lies behind a test computed from the voxel it overwrites; where the function reports kept/split sizes or per-supervoxel voxel counts, each count changes in the block that holds the store (or, for SplitStats, the test) and nowhere else in the loop",
 		Fn:    ruleRelabelGuardedAndCounted})
-	register(ruleDef{ID: "R10.5", Prop: "C10", Tier: "quick", Floor: 2, Title: "(= R14.5) sibling agreement of the vote loops of the down-sampling implementations: ties go to the smaller label in every one", Fn: ruleR14_5})
+	register(ruleDef{ID: "R10.5", Prop: "C10", Tier: "quick", Floor: 1, Title: "(= R14.5) sibling agreement of the vote loops of the down-sampling implementations: ties go to the smaller label in every one", Fn: ruleR14_5})
 	register(ruleDef{ID: "R10.6", Prop: "C10", Tier: "quick", Floor: 1, Title: "(= R14.7) absent octants mean 'unchanged' on every path of Block.Downres", Fn: ruleR14_7})
 	register(ruleDef{ID: "R10.7", Prop: "C10", Tier: "quick", Floor: 1, Title: "(= R14.17) the down-sampled voxel is chosen over the complete vote in downresArray", Fn: ruleWinnerFromCompleteVote})
 }
